@@ -56,6 +56,27 @@ func main() {
 			}
 		}
 		os.Exit(rc)
+	case "benign":
+		ids := os.Args[2:]
+		if len(ids) == 0 {
+			ids = sortedIDs()
+		}
+		rc := 0
+		for _, id := range ids {
+			p := registry[id]
+			if p == nil {
+				fmt.Printf("unknown property %s\n", id)
+				rc = 1
+				continue
+			}
+			for _, m := range runBenign(p, "slicelabels") {
+				fmt.Printf("%s benign %-36s %s  %s\n", id, m.ID, m.Verdict, m.Detail)
+				if m.Verdict == "ALARM" {
+					rc = 1
+				}
+			}
+		}
+		os.Exit(rc)
 	case "selftest":
 		ids := os.Args[2:]
 		if len(ids) == 0 {
@@ -214,6 +235,15 @@ func runCheck(id, tier string) int {
 		case "BROKEN":
 			all = append(all, Obligation{Key: "mutant-not-applicable@" + m.ID, Rule: "checker-selftest", Status: StObserve,
 				Reason: "mutant witness " + m.ID + " does not compile on this tree: " + m.Detail})
+		}
+	}
+	// behaviour-preserving variants must stay quiet (thorough tier)
+	if tier != "quick" {
+		for _, m := range runBenign(p, "slicelabels") {
+			if m.Verdict == "ALARM" {
+				all = append(all, Obligation{Key: "checker-regression@benign:" + m.ID, Rule: "checker-regression", Status: StIncomplete,
+					Reason: "behaviour-preserving variant " + m.ID + " raises an alarm: " + m.Detail})
+			}
 		}
 	}
 	sortObls(all)
